@@ -134,20 +134,28 @@ theorem pdfMB_nonneg (T : Fn) (hexp : ∀ y, 0 < T.exp y) (hsq : ∀ y, 0 ≤ T.
 
 /-! ## Binomial: the CDF is the sum of the mass function, and the masses sum to one -/
 
+theorem cdfBinomialSum_eq (binom : Nat → Nat → Rat) (t : Nat) (p : Rat) (x : Nat) :
+    cdfBinomialSum binom t p x = ∑ i ∈ Finset.range (x + 1), binom t i * p ^ i * (1 - p) ^ (t - i) := by
+  unfold cdfBinomialSum; exact foldl_range_add _ _
+
+/-- the coded CDF (after `fix:` 1f73a00): below the number of trials it is `min(1, Σ_{i≤x} pmf)`, from there on 1 -/
 theorem cdf_binomial_is_sum (binom : Nat → Nat → Rat) (t : Nat) (p : Rat) (x : Nat) (hp : 0 ≤ p ∧ p ≤ 1) :
-    cdfBinomial binom t p x = .ok (∑ i ∈ Finset.range (x + 1), binom t i * p ^ i * (1 - p) ^ (t - i)) ∧
+    (x < t → cdfBinomial binom t p x = .ok (rmin 1 (∑ i ∈ Finset.range (x + 1), binom t i * p ^ i * (1 - p) ^ (t - i)))) ∧
+      (t ≤ x → cdfBinomial binom t p x = .ok 1) ∧
       ∀ i, pmfBinomial binom t p i = .ok (binom t i * p ^ i * (1 - p) ^ (t - i)) := by
   have h : ¬ (p < 0 ∨ p > 1) := by intro h; rcases h with h | h <;> linarith [hp.1, hp.2]
-  constructor
-  · unfold cdfBinomial
-    rw [if_neg h, foldl_range_add]
+  refine ⟨?_, ?_, ?_⟩
+  · intro hx
+    unfold cdfBinomial
+    rw [if_neg h, if_neg (by omega), cdfBinomialSum_eq]
+  · intro hx
+    unfold cdfBinomial
+    rw [if_neg h, if_pos hx]
   · intro i; unfold pmfBinomial; rw [if_neg h]
 
-/-- with `Binomial_Coefficient = C(n,k)` (C06) the distribution is normalised: `CDF(trials) = 1` -/
-theorem cdf_binomial_total (t : Nat) (p : Rat) (hp : 0 ≤ p ∧ p ≤ 1) :
-    cdfBinomial (fun n k => ((n.choose k : Nat) : Rat)) t p t = .ok 1 := by
-  rw [(cdf_binomial_is_sum _ t p t hp).1]
-  congr 1
+/-- the binomial theorem: the masses sum to one -/
+theorem binomial_masses_total (t : Nat) (p : Rat) :
+    ∑ i ∈ Finset.range (t + 1), ((t.choose i : Nat) : Rat) * p ^ i * (1 - p) ^ (t - i) = 1 := by
   have key := add_pow p (1 - p) t
   have e : p + (1 - p) = 1 := by ring
   rw [e, one_pow] at key
@@ -155,6 +163,45 @@ theorem cdf_binomial_total (t : Nat) (p : Rat) (hp : 0 ≤ p ∧ p ≤ 1) :
   apply Finset.sum_congr rfl
   intro i _
   ring
+
+theorem binomial_partial_le_one (t : Nat) (p : Rat) (hp : 0 ≤ p ∧ p ≤ 1) (x : Nat) (hx : x ≤ t) :
+    ∑ i ∈ Finset.range (x + 1), ((t.choose i : Nat) : Rat) * p ^ i * (1 - p) ^ (t - i) ≤ 1 := by
+  have h1 : 0 ≤ 1 - p := by linarith [hp.2]
+  refine le_trans ?_ (le_of_eq (binomial_masses_total t p))
+  apply Finset.sum_le_sum_of_subset_of_nonneg
+  · exact Finset.range_mono (by omega)
+  · intro i _ _
+    exact mul_nonneg (mul_nonneg (Nat.cast_nonneg _) (pow_nonneg hp.1 _)) (pow_nonneg h1 _)
+
+/-- **the CDF is the sum of the mass function** (with `Binomial_Coefficient = C(n,k)`, C06), for every `x`:
+    the `min(1, ·)` and the early return of `fix:` 1f73a00 are value-neutral in exact arithmetic -/
+theorem cdf_binomial_is_sum_choose (t : Nat) (p : Rat) (x : Nat) (hp : 0 ≤ p ∧ p ≤ 1) :
+    cdfBinomial (fun n k => ((n.choose k : Nat) : Rat)) t p x =
+      .ok (∑ i ∈ Finset.range (min x t + 1), ((t.choose i : Nat) : Rat) * p ^ i * (1 - p) ^ (t - i)) := by
+  by_cases hx : x < t
+  · rw [(cdf_binomial_is_sum _ t p x hp).1 hx, Nat.min_eq_left hx.le]
+    have := binomial_partial_le_one t p hp x hx.le
+    unfold rmin
+    split_ifs with h
+    · rfl
+    · congr 1; linarith [not_lt.mp h]
+  · have hx' : t ≤ x := not_lt.mp hx
+    rw [(cdf_binomial_is_sum _ t p x hp).2.1 hx', Nat.min_eq_right hx', binomial_masses_total]
+
+/-- normalised: `CDF(trials) = 1` -/
+theorem cdf_binomial_total (t : Nat) (p : Rat) (hp : 0 ≤ p ∧ p ≤ 1) :
+    cdfBinomial (fun n k => ((n.choose k : Nat) : Rat)) t p t = .ok 1 :=
+  (cdf_binomial_is_sum _ t p t hp).2.1 (le_refl _)
+
+/-- the CDF never exceeds one, whatever `Binomial_Coefficient` returns (exact clause after `fix:` 1f73a00) -/
+theorem cdf_binomial_le_one (binom : Nat → Nat → Rat) (t : Nat) (p : Rat) (x : Nat) (v : Rat)
+    (h : cdfBinomial binom t p x = .ok v) : v ≤ 1 := by
+  unfold cdfBinomial at h
+  split_ifs at h with h1 h2
+  · cases h; exact le_refl _
+  · cases h; unfold rmin; split_ifs with h3
+    · exact h3.le
+    · exact le_refl _
 
 theorem binomial_guard (binom : Nat → Nat → Rat) (t : Nat) (p : Rat) (x : Nat) (hp : p < 0 ∨ p > 1) :
     pmfBinomial binom t p x = .error .diag ∧ cdfBinomial binom t p x = .error .diag := by
@@ -470,5 +517,19 @@ theorem cdfGauss_scale (T : Fn) (c x mu sigma : Rat) (hc : 0 < c) :
       · simp [hs]
       · field_simp
   rw [e]
+
+/-! ## No observed events (audit defect 15) -/
+
+/-- no observed events: the log-likelihood is `-(s+b)` — the logarithm drops out (`0 * log _ = 0` in exact arithmetic), so
+    the early return `if(N_observed == 0) return -(s+b)` proposed for `Likelihood_Poisson(0,0,0) = nan` is value-neutral in the model -/
+theorem logLikelihood_zero_obs (T : Fn) (s b : Rat) : logLikelihoodPoisson T s 0 b = -(s + b) := by
+  unfold logLikelihoodPoisson
+  simp [sumLog]
+
+/-- … and the mass function at mean 0, count 0 is 1: the value the likelihood must have for `s + b = 0`, `n = 0` given `exp 0 = 1` -/
+theorem likelihood_000 (T : Fn) (h0 : T.exp 0 = 1) : likelihoodPoisson T 0 0 0 = 1 ∧ pmfPoisson T 0 0 = .ok 1 := by
+  constructor
+  · unfold likelihoodPoisson; rw [logLikelihood_zero_obs]; simpa using h0
+  · unfold pmfPoisson; simp
 
 end Lp.C07
